@@ -32,7 +32,7 @@ from .c24 import make_cemi
 
 TITLE = "secure session freshness; no plain sends"
 CEMI = bytes.fromhex("2900bcd011010901010081")
-KINDS = ["genuine", "forged-mac", "wrong-session-id", "wrong-key", "nested-wrapper", "wrapped-remote-diagnosis", "wrapped-unknown-service", "wrapped-garbage"]
+KINDS = ["genuine", "forged-mac", "wrong-session-id", "session-id-field-altered", "wrong-key", "nested-wrapper", "wrapped-remote-diagnosis", "wrapped-unknown-service", "wrapped-garbage"]
 PLAIN = ["plain-tunnelling-request", "plain-session-response", "plain-session-status-close"]
 
 
@@ -64,6 +64,10 @@ class SessionWorld(World):
             return raw[:-1] + bytes((raw[-1] ^ 1,))
         if kind == "wrong-session-id":
             return srv.wrap(inner, seq=seq, session_id=srv.session_id + 1)
+        if kind == "session-id-field-altered":
+            # wrapped correctly for this session (MAC computed over the real id), then the id field on the wire replaced
+            raw = srv.wrap(inner, seq=seq)
+            return raw[:6] + ((srv.session_id + 1) & 0xFFFF).to_bytes(2, "big") + raw[8:]
         if kind == "wrong-key":
             return srv.wrap(inner, seq=seq, key=bytes(16))
         if kind == "nested-wrapper":
